@@ -207,14 +207,15 @@ SuccGrantsLeave(s, sc, l) == s.st[sc] = "Active" /\ (FixLeave => s.pred[sc] = l)
    checks that the leaver is its predecessor (FixLeave) *)
 LeaveRetry(s, l) == IF s.ltry[l] + 1 >= MaxTry THEN [s EXCEPT !.lpc[l] = "failed", !.ltry[l] = @ + 1]
                     ELSE [s EXCEPT !.lpc[l] = "try", !.ltry[l] = @ + 1]
+HoldsKeys(s, l) == (IF \E k \in KeysOf(s.lay) : Present(s.store[l][k]) THEN "-with-keys" ELSE "") \o (IF s.lok[l] THEN "-stale-read" ELSE "")
 LeaveReadEn(s, l) == s.lpc[l] = "try"
 LeaveReadF(s, l) ==
   LET p == s.pred[l]  sc == Hd(s, l) IN
   IF p = Nil \/ sc = Nil THEN LeaveRetry(Cov(s, "leave-no-neighbour"), l)
   ELSE IF p = l /\ sc = l THEN [Cov(s, "leave-alone") EXCEPT !.lpc[l] = "adv", !.lp[l] = l, !.ls[l] = l]     \* alone: nothing to lock or move
-  ELSE [s EXCEPT !.lpc[l] = "read", !.lp[l] = p, !.ls[l] = sc, !.lok[l] = (s.pred[sc] = l)]     \* lok (ghost): the successor still named the leaver as predecessor when it was read
+  ELSE [Cov(s, IF sc = l THEN "leave-own-successor-with-predecessor" \o HoldsKeys(s, l) ELSE "leave-read")     \* (a joiner has been admitted, the list not yet refreshed)
+          EXCEPT !.lpc[l] = "read", !.lp[l] = p, !.ls[l] = sc, !.lok[l] = (s.pred[sc] = l)]     \* lok (ghost): the successor still named the leaver as predecessor when it was read
 
-HoldsKeys(s, l) == (IF \E k \in KeysOf(s.lay) : Present(s.store[l][k]) THEN "-with-keys" ELSE "") \o (IF s.lok[l] THEN "-stale-read" ELSE "")
 (* first lock (asymmetric order by identifier: the successor's lock first when the leaver has the larger id) *)
 LeaveFirstEn(s, l) == s.lpc[l] = "read"
 LeaveFirstF(s, l) ==
